@@ -12,8 +12,10 @@ LEVEL = "proof"
 LEVEL_TEXT = ("Kernel-checked theorems over the integer-only temporal model (Props/C04.lean, Lemmas/TemporalText.lean): the ISO-8601 "
               "duration writer/reader pair is exact for every timedelta (`duration_rt`, all signs and magnitudes, microseconds included), "
               "the emitted duration text is well-formed for an independent grammar, aware times round-trip with offset and "
-              "microseconds (`time_rt`), dates and datetimes round-trip relative to the calendar law CalLaw (ordinal <-> y-m-d "
-              "bijection, tested exhaustively over all 3 652 059 ordinals in the thorough tier); int text round trip from core's "
+              "microseconds (`time_rt`), dates and datetimes round-trip for every value (`date_rt`, `datetime_unmarshal`; the calendar law CalLaw — "
+              "ordinal <-> y-m-d bijection — is PROVED, `calLaw`, and also compared with datetime.date over all 3 652 059 ordinals in the "
+              "thorough tier); the four temporal leaves satisfy the leaf laws of C01/C13 (`leaf_roundtrip`, `leaf_passthrough`), so "
+              "`roundtrip_temporal` / `passthrough_temporal` instantiate the C01 / C13 theorems on the scalar set S1 with temporals; int text round trip from core's "
               "Nat.toDigits lemmas. Decimal / Fraction / UUID / path / float printers and parsers are CPython's (named hypotheses; "
               "Python's own printer is the oracle there). Tied to /repo by the per-run correspondence on boundary-biased scalars in "
               "all text carriers; the property (text -> value, numbers -> temporals as UTC epoch seconds, temporals -> numbers / "
@@ -24,7 +26,7 @@ LEVEL_NOTE = ("Trusted: Lean kernel, standard axioms; hand-written Temporal mode
               "seconds: IEEE rounding in unixtime()/total_seconds() is outside the model (oracle only).")
 TECHNIQUE = "Lean 4 proofs of the text writer/reader pairs (integer arithmetic, digit-string lemmas); correspondence on boundary-biased scalars; independent ISO readers as oracle"
 DESIGN_REF = "DESIGN.md §5 C04"
-MODULES = ["TypelibModel.Props.Dispatch"]
+MODULES = ["TypelibModel.Props.C04", "TypelibModel.Props.Dispatch"]
 TABLES = True
 RULE = ("scalar kinds x boundary-biased values (ints of any size, shortest-repr floats, Decimals of any exponent, Fractions, UUIDs, "
         "paths, enum members, dates 0001..9999, datetimes/times with every whole-minute offset, microseconds and fold, timedeltas "
